@@ -300,7 +300,7 @@ def run_uplink(ctx, verdict, pid):
 
 
 def run(ctx, verdict, pid):
-    return run_copy(ctx, verdict, pid) + run_uplink(ctx, verdict, pid)
+    return run_copy(ctx, verdict, pid) + run_uplink(ctx, verdict, pid) + run_serve(ctx, verdict, pid)
 
 
 def replay(ctx, verdict, pid):
@@ -311,8 +311,96 @@ def replay(ctx, verdict, pid):
     out = inp + '.out'
     if kind == 'relay-copy':
         rc, log, _ = vlib.go_test(ctx, 'common', 'TestVerifRelayCopy', files=['relay_copy_test.go'], env=dict(VERIF_IN=inp, VERIF_OUT=out), timeout=600)
+    elif kind == 'relay-serve':
+        rc, log, _ = vlib.go_test(ctx, 'server', 'TestVerifRelayServe', files=['relay_serve_test.go'], env=dict(VERIF_IN=inp, VERIF_OUT=out), timeout=600, util=False)
     else:
         rc, log, _ = vlib.go_test(ctx, 'client', 'TestVerifRelayUplink', files=['relay_uplink_test.go'], env=dict(VERIF_IN=inp, VERIF_OUT=out), timeout=600)
     print(open(out).read() if os.path.exists(out) else log[-2000:])
     print('recorded when the violation was reported:', r.get('observed', '')[:2000])
     return 0 if rc == 0 else 1
+
+
+# ---------------------------------------------------------------------------------------------------------
+# part 3: server.serveSession - the two relay goroutines of one stream (coq/Model/RelayPair.v)
+def serve_cases(ctx):
+    rng = ctx.rng
+    cases = []
+    fixed = [(1, [5, 100, 3000], 1, [], 0), (0, [5, 100, 3000], 1, [], 0), (1, [], 1, [], 0), (1, [1], 1, [], 0),
+             (1, [16381, 16382, 1], 1, [], 0), (0, [20000, 20000], 0, [7, 900], 0), (1, [10], 0, [4], 1), (0, [2], 0, [3, 3], 1),
+             (1, [40000], 1, [], 0), (1, [700] * 8, 1, [], 0)]
+    n = 14 if ctx.quick() else 400
+    for i in range(n):
+        kind = rng.choice(['closes', 'closes', 'closes', 'open', 'proxyends'])
+        cs = [rng.choice([1, 2, 50, 1000, 5000, 16381, 16382, 20000]) for _ in range(rng.choice([0, 1, 1, 2, 3, 5]))]
+        if kind == 'closes':
+            fixed.append((rng.choice([0, 1, 1]), cs, 1, [], 0))
+        elif kind == 'open':
+            fixed.append((rng.choice([0, 1]), cs, 0, [rng.choice([1, 10, 3000]) for _ in range(rng.choice([0, 1, 2]))], 0))
+        else:
+            fixed.append((rng.choice([0, 1]), cs, rng.choice([0, 1]), [rng.choice([1, 10, 3000]) for _ in range(rng.choice([0, 1, 2]))], 1))
+    # a client that neither writes nor closes has not told the server about its stream at all
+    fixed = [(g, (cs if (cs or cc) else [3]), cc, ps, pe) for g, cs, cc, ps, pe in fixed]
+    for i, (gate, cs, cc, ps, pe) in enumerate(fixed):
+        cases.append(dict(id='v%d' % i, gate=gate, cs=cs, cc=cc, ps=ps, pe=pe,
+                          line='v%d S %d %s %d %s %d' % (i, gate, ','.join(map(str, cs)) or '-', cc, ','.join(map(str, ps)) or '-', pe)))
+    return cases
+
+
+def run_serve(ctx, verdict, pid):
+    broken = []
+    cases = serve_cases(ctx)
+    inp = '%s/relay_serve.in' % ctx.work
+    open(inp, 'w').write('\n'.join(c['line'] for c in cases) + '\n')
+    gout, mout = inp[:-3] + '.go.out', inp[:-3] + '.model.out'
+    rc, log, dt = vlib.go_test(ctx, 'server', 'TestVerifRelayServe', files=['relay_serve_test.go'], env=dict(VERIF_IN=inp, VERIF_OUT=gout), timeout=1200, util=False)
+    got = vlib.read_lines_by_id(gout)
+    if rc != 0 or len(got) < len(cases):
+        broken.append(('Go driver TestVerifRelayServe failed rc=%d (%d of %d cases answered)' % (rc, len(got), len(cases)), log[-3000:]))
+    mrc, merr = vlib.run_model('relay', inp, mout)
+    mod = vlib.read_lines_by_id(mout)
+    if mrc != 0:
+        broken.append(('relay model failed rc=%d' % mrc, merr[-2000:]))
+    mism, fails = [], 0
+    for c in cases:
+        g = got.get(c['id'])
+        if g is None or '=' not in g:
+            if g is not None:
+                broken.append(('serveSession driver case %s: %s' % (c['id'], g), c['line']))
+            continue
+        o = _kv(g)
+        nwant = sum(c['cs'])
+        glen, gok = o['got'].split(':', 1)
+        dlen, dok = o['down'].split(':', 1)
+        why = None
+        quiet = not c['ps'] and not c['pe']
+        if o['wedged'] == '1':
+            why = 'the relay did not wind down (proxy connection not closed / bytes not delivered) within the patience of the driver'
+        elif c['cc'] and quiet and gok != 'ok':
+            why = 'the client wrote %d bytes and closed the stream, the proxy server stayed silent: the proxy connection was handed %s bytes (%s) before the relay closed it' % (nwant, glen, gok)
+        elif not c['cc'] and not c['pe'] and (gok != 'ok' or dok != 'ok'):
+            why = 'both sides stay open: proxy connection got %s, client got %s' % (o['got'], o['down'])
+        elif gok != 'ok' and not gok.startswith('BAD:want-%d-first-difference-at-%s' % (nwant, glen)):
+            why = 'the proxy connection was handed bytes that are not a prefix of what the client wrote: ' + o['got']
+        elif dok != 'ok' and not dok.startswith('BAD:want-%d-first-difference-at-%s' % (sum(c['ps']), dlen)):
+            why = 'the client read bytes that are not a prefix of what the proxy server sent: ' + o['down']
+        elif (c['cc'] or c['pe']) and (o['closed'] != '1' or o['cliEnd'] != '1'):
+            why = 'one side ended but the relay did not close the %s' % ('proxy connection' if o['closed'] != '1' else 'stream towards the client')
+        if why:
+            fails += 1
+            if fails <= 2:
+                verdict.oracle_failure('serve:' + why.split(':')[0][:70], '%s oracle (server.serveSession between a real Session pair and a harness-owned proxy connection, case "%s"): %s' % (pid, c['line'], why),
+                                       dict(kind='relay-serve', case=c['line'], observed=g, how='go test -run TestVerifRelayServe with harness/server/relay_serve_test.go; gate=1: the dial is held until the client\'s writes and close have reached the server; the proxy connection lets a pending Close overtake a Write'))
+        m = mod.get(c['id'])
+        if m is not None and (quiet or not c['pe']):
+            mo = _kv(m)
+            mlen = 0 if mo['out'] == '-' else len(mo['out']) // 2
+            mup = 0 if mo['up'] == '-' else len(mo['up']) // 2
+            want = dict(got=mlen, closed=mo['closed'], down=mup)
+            have = dict(got=int(glen), closed=o['closed'], down=int(dlen))
+            if want != have and len(mism) < 3:
+                mism.append(dict(case=c['line'], model=want, impl=have, impl_line=g))
+    if mism:
+        broken.append(('model != implementation on the relay pair of server.serveSession (%s)' % mism[0]['case'], json.dumps(mism, indent=1)))
+    verdict.cov['relay_serve'] = dict(cases=len(cases), answered=len(got), oracle_failures=fails,
+                                      gated=sum(c['gate'] for c in cases), client_closes=sum(c['cc'] for c in cases), proxy_ends=sum(c['pe'] for c in cases))
+    return broken
